@@ -107,7 +107,8 @@ def render(frec, name, sigs=None):
             body.append(pre + "_t = %s; _a += (%d if _t is None else _t)" % (
                 icall_src(op, ps, None), NONE_CONTRIB))
         elif op[0] == "raise":
-            body.append(pre + 'raise ValueError("E%d")' % op[1])
+            body.append(pre + ('raise ValueError("E%d")' if op[1] < 8 else
+                               'raise GeneratorExit("E%d")') % op[1])
         elif op[0] == "none":
             body.append(pre + "return None")
         else:
